@@ -548,6 +548,11 @@ def gen_decorators(run, C, tools):
                 run.oracle_violation("rotate feeds %r; rotating it back gives %r, not the individual" % (fed, back), case)
                 continue
             minv = [[float(v) for v in row] for row in dec.rotate.__self__.matrix]
+            # contract of numpy.linalg.inv assumed by theorem C20_rotate_feeds: Minv . M = I
+            prod = [[math.fsum(minv[i][k] * float(mat[k][j]) for k in range(n)) for j in range(n)] for i in range(n)]
+            if any(abs(prod[i][j] - (1.0 if i == j else 0.0)) > 1e-8 for i in range(n) for j in range(n)):
+                run.oracle_violation("rotate: the stored matrix is not the inverse of the rotation matrix", case)
+                continue
             C.add("CRotate %s %s %s" % (cmat(minv), cfl(x), cfl(fed)), case)
         # noise
         nobj = 3
@@ -780,6 +785,21 @@ def main(run):
     else:
         run.extra_cov["tie"] = "translation (regenerated definitions proved equal to the published formulas) + correspondence"
         run.build_props()
+    def search(run):
+        """extra counterexample search (only when an obligation or the correspondence broke and the first pass
+        found no failing input): the oracle on ten times more random inputs, no Coq evaluation"""
+        saved = run.tier
+        run.tier = "thorough"
+        try:
+            D = Cases(run, meta)
+            for g, mod in ((gen_single, B), (gen_multi, B), (gen_gp, gp), (gen_binary, binary), (gen_decorators, tools),
+                           (gen_movingpeaks, movingpeaks)):
+                g(run, D, mod)
+                if run.oracle_viol:
+                    break
+        finally:
+            run.tier = saved
+    run.search_fn = search
     C = Cases(run, meta)
     gen_single(run, C, B)
     gen_multi(run, C, B)
